@@ -315,7 +315,7 @@ Definition ex_script :=
   [mkBeh (OStatus 503 [] 0%N) None 10; mkBeh (OErr true true false) (Some 3%nat) 20; mkBeh (OStatus 200 [] 0%N) None 4].
 
 Example ex_wf : wf_body ex_body.
-Proof. discriminate. Qed.
+Proof. intros [H|H]; discriminate. Qed.
 
 (* two retries, pauses clamped to 100 and 1000, the whole body on attempts 1 and 3,
    the three bytes the server read on attempt 2 *)
@@ -390,6 +390,16 @@ Example ex_blob_push :
   u_res u = RResp 201 0%N /\
   match u_put u with Some put => map snd (auth_attempts put) = [b "manifest"; b "manifest"] | None => False end.
 Proof. vm_compute. split; reflexivity. Qed.
+
+(* http.NoBody without GetBody: the transport does not retry it (one attempt, the 503 comes
+   back), the auth client does re-send it after a challenge *)
+Example ex_nobody :
+  let bd := mkBody KNoBody [] in
+  length (attempts (o_trace (round_trip ex_policy None bd (init_state bd)
+                                        [mkBeh (OStatus 503 [] 0%N) None 0] 0))) = 1%nat /\
+  let a := auth_do false ex_policy None bd [mkBeh (OStatus 401 [] 1%N) None 0; mkBeh (OStatus 200 [] 0%N) None 0] in
+  a_res a = RResp 200 0%N /\ length (attempts (a_second a)) = 1%nat.
+Proof. vm_compute. repeat split; reflexivity. Qed.
 
 (* Retry-After: 2 within [100ns, 3s]: honoured *)
 Example ex_retry_after :
